@@ -261,6 +261,42 @@ impl Cfg {
                 .map_err(|e| e.to_string()),
             _ => {
                 let mut b = AhoCorasick::builder();
+                // Half of all configurations reach the builder with a HISTORY:
+                // every option is first set to another value (in an order that
+                // depends on the configuration); only the last call per option
+                // may count, whatever the other options were at the time.
+                let h = self.kind as usize * 7 + self.sk as usize * 5 + self.ci as usize * 3 + self.pre as usize + self.byte_classes as usize * 11 + self.dense_depth.unwrap_or(9) + self.imp as usize * 13;
+                if h % 2 == 1 {
+                    let other_kind = [AhoCorasickKind::NoncontiguousNFA, AhoCorasickKind::ContiguousNFA, AhoCorasickKind::DFA][h % 3];
+                    let steps: [u8; 6] = [[0, 1, 2, 3, 4, 5], [5, 1, 0, 4, 3, 2], [2, 5, 4, 1, 0, 3]][(h / 2) % 3];
+                    for st in steps {
+                        match st {
+                            0 => {
+                                b.match_kind(to_mk(Kind::ALL[(self.kind as usize + 1) % 3]));
+                            }
+                            1 => {
+                                b.start_kind(SK::ALL[(self.sk as usize + 1 + h % 2) % 3].to_ac());
+                            }
+                            2 => {
+                                b.ascii_case_insensitive(!self.ci);
+                            }
+                            3 => {
+                                b.prefilter(!self.pre);
+                            }
+                            4 => {
+                                b.byte_classes(!self.byte_classes);
+                            }
+                            _ => {
+                                b.kind(Some(other_kind));
+                            }
+                        }
+                    }
+                    if h % 3 == 0 {
+                        // the wanted start kind while another automaton kind is
+                        // still selected, the wanted automaton kind afterwards
+                        b.start_kind(self.sk.to_ac());
+                    }
+                }
                 b.match_kind(to_mk(self.kind))
                     .start_kind(self.sk.to_ac())
                     .ascii_case_insensitive(self.ci)
@@ -422,8 +458,17 @@ fn via_setters<'h>(input: &Input<'h>, alt: bool) -> Input<'h> {
                 if !alt {
                     i.set_span(sp);
                 } else if sp.start % 2 == 0 {
-                    // every spelling of a range; open ends mean the haystack's ends
-                    if sp.end == len && sp.start == 0 && len % 2 == 0 {
+                    // every spelling of a range; open ends mean the haystack's ends;
+                    // `RangeBounds` also admits explicit bound pairs, the only way
+                    // to write an EXCLUDED start
+                    use std::ops::Bound;
+                    if sp.start >= 1 && sp.start % 4 == 2 {
+                        i.set_range((Bound::Excluded(sp.start - 1), Bound::Excluded(sp.end)));
+                    } else if sp.start % 4 == 0 && sp.end > sp.start && sp.end % 3 == 0 {
+                        i.set_range((Bound::Included(sp.start), Bound::Included(sp.end - 1)));
+                    } else if sp.start >= 1 && sp.end == len && sp.start % 8 == 6 {
+                        i.set_range((Bound::Excluded(sp.start - 1), Bound::Unbounded));
+                    } else if sp.end == len && sp.start == 0 && len % 2 == 0 {
                         i.set_range(..);
                     } else if sp.end == len {
                         i.set_range(sp.start..);
@@ -446,6 +491,12 @@ fn via_setters<'h>(input: &Input<'h>, alt: bool) -> Input<'h> {
         }
     }
     i
+}
+
+/// A whole-haystack, unanchored, non-earliest request.
+fn plain(input: &Input<'_>) -> bool {
+    let sp = input.get_span();
+    sp.start == 0 && sp.end == input.haystack().len() && !input.get_anchored().is_anchored() && !input.get_earliest()
 }
 
 fn supported(t: &AhoCorasick, input: &Input<'_>, overlapping: bool) -> bool {
@@ -488,6 +539,15 @@ impl S {
     pub fn try_find(&self, input: Input<'_>) -> Result<Option<M>, MatchError> {
         let r = route(&input);
         match self {
+            // (a plain whole-haystack request goes in as `&[u8]` / `&str`, the way
+            // most callers write it; the conversion to `Input` is the crate's)
+            S::Top(t) if r == 2 && supported(t, &input, false) && plain(&input) => {
+                let h = input.haystack();
+                match std::str::from_utf8(h) {
+                    Ok(st) if h.len() % 2 == 0 => Ok(t.find(st).map(mm)),
+                    _ => Ok(t.find(h).map(mm)),
+                }
+            }
             S::Top(t) if r == 2 && supported(t, &input, false) => Ok(t.find(via_setters(&input, true)).map(mm)),
             _ => {
                 let input = if r == 0 { input } else { via_setters(&input, r == 2) };
@@ -511,6 +571,9 @@ impl S {
         let cap = input.get_span().len() + 3;
         let r = route(&input);
         match self {
+            S::Top(t) if r == 2 && supported(t, &input, false) && plain(&input) => {
+                Ok(t.find_iter(input.haystack()).take(cap).map(mm).collect())
+            }
             S::Top(t) if r == 2 && supported(t, &input, false) => {
                 Ok(t.find_iter(via_setters(&input, true)).take(cap).map(mm).collect())
             }
@@ -577,6 +640,23 @@ impl S {
                 }
             }
         }
+    }
+
+    /// The consuming `Iterator` methods called directly on the crate's
+    /// iterators (an iterator type may override any of them): `count()`,
+    /// `last()` and `nth(k)` of the non-overlapping iterator, `count()` of the
+    /// overlapping one. Only for inputs the configuration accepts.
+    pub fn iter_methods(&self, input: Input<'_>, k: usize, overlapping: bool) -> Result<(usize, Option<M>, Option<M>, Option<usize>), MatchError> {
+        let (i1, i2, i3, i4) = (input.clone(), input.clone(), input.clone(), input);
+        let count = with_low!(self, a => a.try_find_iter(i1).map(|it| it.count()), top t => t.try_find_iter(i1).map(|it| it.count()))?;
+        let last = with_low!(self, a => a.try_find_iter(i2).map(|it| it.last().map(mm)), top t => t.try_find_iter(i2).map(|it| it.last().map(mm)))?;
+        let nth = with_low!(self, a => a.try_find_iter(i3).map(|mut it| it.nth(k).map(mm)), top t => t.try_find_iter(i3).map(|mut it| it.nth(k).map(mm)))?;
+        let ocount = if overlapping {
+            Some(with_low!(self, a => a.try_find_overlapping_iter(i4).map(|it| it.count()), top t => t.try_find_overlapping_iter(i4).map(|it| it.count()))?)
+        } else {
+            None
+        };
+        Ok((count, last, nth, ocount))
     }
 
     pub fn patterns_len(&self) -> usize {
